@@ -172,10 +172,24 @@ impl HyperLogLog {
         let q = rdr.read_u8()? as usize;
 
         let ksize = rdr.read_u8()? as usize;
+        // p, q and the registers come from the file: the same bounds as in `new`
+        // (an unchecked p was used as a shift count and an allocation size, an
+        // unchecked register as an index in the estimators, and a failed
+        // allocation or a panic in an `extern "C"` function aborts the process)
+        if !(4..=18).contains(&p) || q != 64 - p {
+            return Err(Error::HLLPrecisionBounds);
+        }
         let n_registers = 1 << p;
 
         let mut registers = vec![0u8; n_registers];
         rdr.read_exact(&mut registers)?;
+        if registers.iter().any(|&r| r as usize > q + 1) {
+            return Err(io::Error::new(
+                io::ErrorKind::InvalidData,
+                "HyperLogLog register out of range",
+            )
+            .into());
+        }
 
         Ok(HyperLogLog {
             registers,
